@@ -60,7 +60,7 @@ PY_BUILTINS = {"len", "min", "max", "abs", "sum", "any", "all", "set", "dict", "
 SPEC_BUILTINS = {"old", "implies", "iff", "keys", "values_of", "isnan", "isinf", "isfinite", "card", "every",
                  "subset", "forall", "exists", "same", "typeis", "fresh_ref", "disjoint", "seq_eq", "union_all",
                  "real", "rank", "ite", "inrange", "allocated", "unchanged", "floor", "now", "isdigits", "isneg", "samefp",
-                 "validf", "unq", "isquoted", "cast"}
+                 "validf", "unq", "isquoted", "cast", "isident"}
 
 
 class ExprMixin:
@@ -973,6 +973,12 @@ class ExprMixin:
             # None is never a member of a container of non-optional elements
             for st1, c in self.contains(st, opt_val(a), cont, node):
                 yield st1, z3.And(z3.Not(opt_isnone(a)), c)
+            return
+        if isinstance(t, (TSet, TMap)) and isinstance(a.t, TOpaque) and not isinstance(t.elem if isinstance(t, TSet) else t.k, TOpaque):
+            # a value of unknown type may well be a member of a typed container: unknown outcome
+            self.note_assumed(f"membership test of an opaque value: {ast.unparse(node)[:60]} (unknown result)")
+            self.opq_may_raise(st, "membership test of a value of unknown type")
+            yield st, z3.Bool(fresh_name("opq_in"))
             return
         if isinstance(t, TSet):
             try:
